@@ -17,6 +17,7 @@
    Floats are exact rationals; == is equality of rationals. *)
 From Coq Require Import ZArith QArith List Bool.
 From RV Require Import Base.Wire Base.NumM Base.XFloat Gen.C19Motor Host.Servo Host.ActuatorsX Proofs.NumMP Proofs.ServoP Proofs.ActuatorsXP.
+From RV Require Import Host.ServoFloat Proofs.ServoFloatP.
 Import ListNotations.
 Local Open Scope Q_scope.
 
@@ -259,3 +260,125 @@ Proof.
   - apply ServoP.init_inv; [split; reflexivity | reflexivity | reflexivity].
 Qed.
 Print Assumptions C19_servo_history_nonvacuous.
+
+(* ====================================================================================
+   The two linear maps in BINARY64 (Host/ServoFloat.v).  The theorems above are over exact rationals, where
+   the maps send [min, max] onto [min, max]; CPython rounds each of the five operations ([fl]), and the
+   clause "angle and pulse stay within their bounds" is an EXACT inequality.
+     a2p_fl s a / p2a_fl s p   the maps as CPython computes them;  sstep_fl := the class with them
+     top_exact lo hi           := fl (lo + fl (hi - lo)) = hi     (executable guard of the generators)
+   ==================================================================================== *)
+
+(* REFUTED on the unchanged code (finding F-C19-servo-bound-ulp): Servo(9, min_pulse_us=543.9,
+   max_pulse_us=2000.2).write(180) - an angle within its bounds - leaves a pulse ABOVE max_pulse_us *)
+Theorem C19_servo_binary64_pulse_bound_refuted :
+  exists s v, is_b64 (min_p s) = true /\ is_b64 (max_p s) = true /\ min_a s < max_a s /\ min_p s < max_p s /\
+    py_between (min_a s) (max_a s) v = Some true /\
+    max_p s < cur_p (sstate (sstep_fl s (SWrite v))).
+Proof.
+  exists pulse_witness, (PI 180).
+  destruct ServoFloatP.pulse_witness_facts as (A & B & D & E & _ & F).
+  split; [exact A|]. split; [exact B|]. split; [reflexivity|]. split; [exact D|]. split; [reflexivity|].
+  rewrite F. exact E.
+Qed.
+Print Assumptions C19_servo_binary64_pulse_bound_refuted.
+
+(* ... and Servo(9, min_angle=-90.7, max_angle=90.1).write_us(2400) leaves an angle ABOVE max_angle *)
+Theorem C19_servo_binary64_angle_bound_refuted :
+  exists s, is_b64 (min_a s) = true /\ is_b64 (max_a s) = true /\ min_a s < max_a s /\ min_p s < max_p s /\
+    max_a s < p2a_fl s (max_p s) /\ servo_top_exact s = false.
+Proof.
+  exists angle_witness. destruct ServoFloatP.angle_witness_facts as (A & B & D & E & F).
+  split; [exact A|]. split; [exact B|]. split; [exact D|]. split; [reflexivity|]. split; [exact E | exact F].
+Qed.
+Print Assumptions C19_servo_binary64_angle_bound_refuted.
+
+(* both witnesses are outside the guard; the default calibration is inside and maps its ends exactly *)
+Theorem C19_servo_binary64_default_calibration :
+  let s := mkServo (PI 9) 0 180 544 2400 0 544 in
+  servo_top_exact s = true /\ a2p_fl s 180 = 2400 /\ a2p_fl s 0 = 544 /\ p2a_fl s 2400 = 180 /\ p2a_fl s 544 = 0 /\
+  a2p_fl s 90 = 1472.
+Proof. exact ServoFloatP.default_calibration_exact. Qed.
+Print Assumptions C19_servo_binary64_default_calibration.
+
+(* what holds exactly in binary64 for every servo and argument: the commanded coordinate is stored as given
+   (write/read and write_us/read_us round-trip), a failing call changes nothing, the configuration is constant *)
+Theorem C19_servo_binary64_write_roundtrip : forall s v,
+  py_between (min_a s) (max_a s) v = Some true ->
+  cur_a (sstate (sstep_fl s (SWrite v))) = qval v /\
+  sresult (sstep_fl (sstate (sstep_fl s (SWrite v))) SRead) = Ok (SFloat (qval v)).
+Proof. exact ServoFloatP.write_fl_stores_argument. Qed.
+Print Assumptions C19_servo_binary64_write_roundtrip.
+
+Theorem C19_servo_binary64_write_us_roundtrip : forall s v,
+  py_between (min_p s) (max_p s) v = Some true ->
+  cur_p (sstate (sstep_fl s (SWriteUs v))) = qval v /\
+  sresult (sstep_fl (sstate (sstep_fl s (SWriteUs v))) SReadUs) = Ok (SFloat (qval v)).
+Proof. exact ServoFloatP.write_us_fl_stores_argument. Qed.
+Print Assumptions C19_servo_binary64_write_us_roundtrip.
+
+Theorem C19_servo_binary64_failed_call_atomic : forall s op s' evs k,
+  sstep_fl s op = (s', evs, Raised k) -> s' = s /\ evs = [].
+Proof. exact ServoFloatP.servo_failed_atomic_fl. Qed.
+Print Assumptions C19_servo_binary64_failed_call_atomic.
+
+Theorem C19_servo_binary64_config_constant : forall s op,
+  let s' := sstate (sstep_fl s op) in
+  sv_pin s' = sv_pin s /\ min_a s' = min_a s /\ max_a s' = max_a s /\ min_p s' = min_p s /\ max_p s' = max_p s.
+Proof. exact ServoFloatP.servo_config_constant_fl. Qed.
+Print Assumptions C19_servo_binary64_config_constant.
+
+(* rounding to the nearest binary64 number is monotone - what the bound theorem below rests on *)
+Theorem C19_binary64_rounding_monotone : forall p q, p <= q -> fl p <= fl q.
+Proof. exact ServoFloatP.fl_mono. Qed.
+Print Assumptions C19_binary64_rounding_monotone.
+
+(* PARTIAL, guard explicit: when the calibration maps the top of each range not above the bound
+   ([servo_top_ok]: fl (min + fl (fl (max - min))) <= max on both axes - implied by the executable guard
+   top_exact of the generators, fl (fl x) being fl x on binary64 numbers) and min_angle / min_pulse are
+   binary64 numbers, the image of EVERY in-range argument is within the configured bounds EXACTLY, in binary64:
+   one of the two maps ... *)
+Theorem C19_servo_binary64_map_within_bounds_partial : forall lo_in hi_in lo_out hi_out x,
+  lo_in < hi_in -> lo_out <= hi_out -> lo_in <= x -> x <= hi_in ->
+  is_b64 lo_out = true -> top_ok lo_out hi_out = true ->
+  lo_out <= lin_fl lo_in hi_in lo_out hi_out x /\ lin_fl lo_in hi_in lo_out hi_out x <= hi_out.
+Proof. exact ServoFloatP.lin_fl_bounds. Qed.
+Print Assumptions C19_servo_binary64_map_within_bounds_partial.
+
+(* ... one call, successful or failing ... *)
+Theorem C19_servo_binary64_bounds_step_partial : forall s op,
+  servo_guard s -> servo_bounds_fl s ->
+  servo_bounds_fl (sstate (sstep_fl s op)) /\ servo_guard (sstate (sstep_fl s op)).
+Proof. exact ServoFloatP.step_bounds_fl. Qed.
+Print Assumptions C19_servo_binary64_bounds_step_partial.
+
+(* ... and every history *)
+Theorem C19_servo_binary64_bounds_reachable_partial : forall ops s,
+  servo_guard s -> servo_bounds_fl s -> servo_bounds_fl (srun_fl ops s) /\ servo_guard (srun_fl ops s).
+Proof. exact ServoFloatP.run_bounds_fl. Qed.
+Print Assumptions C19_servo_binary64_bounds_reachable_partial.
+
+Theorem C19_servo_binary64_fresh_bounds : forall pin mina maxa minp maxp,
+  mina < maxa -> minp < maxp -> servo_bounds_fl (mkServo pin mina maxa minp maxp mina minp).
+Proof. exact ServoFloatP.fresh_bounds_fl. Qed.
+Print Assumptions C19_servo_binary64_fresh_bounds.
+
+(* the guard is satisfiable by the default calibration and by a one-decimal one (0.1 .. 179.9, 544.5 .. 2400.3),
+   and false for both refutation witnesses *)
+Example C19_servo_binary64_guard_nonvacuous :
+  servo_guard (mkServo (PI 9) 0 180 544 2400 0 544) /\
+  servo_guard (mkServo (PI 9) (fl (1 # 10)) (fl (1799 # 10)) (fl (5445 # 10)) (fl (24003 # 10)) (fl (1 # 10)) (fl (5445 # 10))) /\
+  servo_top_ok pulse_witness = false /\ servo_top_ok angle_witness = false.
+Proof. exact ServoFloatP.guard_nonvacuous. Qed.
+Print Assumptions C19_servo_binary64_guard_nonvacuous.
+
+(* the results of [fl] are binary64 numbers (rounding again changes nothing), so the guard is what the generators
+   evaluate in Python - lo + (hi - lo) <= hi with every operation rounded once - and the equality form implies it *)
+Theorem C19_binary64_rounding_idempotent : forall x, fl (fl x) == fl x.
+Proof. exact ServoFloatP.fl_idem. Qed.
+Print Assumptions C19_binary64_rounding_idempotent.
+
+Theorem C19_servo_binary64_guard_is_executable : forall lo hi,
+  (top_ok lo hi = true <-> fl (lo + fl (hi - lo)) <= hi) /\ (top_exact lo hi = true -> top_ok lo hi = true).
+Proof. intros lo hi. split; [exact (ServoFloatP.top_ok_iff lo hi) | exact (ServoFloatP.top_exact_ok lo hi)]. Qed.
+Print Assumptions C19_servo_binary64_guard_is_executable.
